@@ -103,6 +103,10 @@ type Ctx struct {
 	// It is installed per path by the executor; every composite term is built over canonical
 	// arguments, so that facts like a=b make f(a) and f(b) the same node.
 	Rep   map[*T]*T
+	// Ranges holds signed bounds [lo, hi] known (from the current path condition) for
+	// bit-vector terms; installed per path by the executor, used for sound simplifications
+	// (masking, extract/extend round trips, comparisons against constants).
+	Ranges map[*T][2]int64
 	table map[key]*T
 	All   []*T
 	Vars  []*T
@@ -387,6 +391,31 @@ func (c *Ctx) cmp(op Op, a, b *T) *T {
 	if a == b {
 		return c.Bool(op == OpUle || op == OpSle)
 	}
+	if len(c.Ranges) > 0 || a.IsConst() || b.IsConst() {
+		l1, h1, ok1 := c.rangeOf(a, 0)
+		l2, h2, ok2 := c.rangeOf(b, 0)
+		if ok1 && ok2 {
+			signedOK := op == OpSlt || op == OpSle || (l1 >= 0 && l2 >= 0)
+			if signedOK {
+				switch op {
+				case OpSlt, OpUlt:
+					if h1 < l2 {
+						return c.True
+					}
+					if l1 >= h2 {
+						return c.False
+					}
+				case OpSle, OpUle:
+					if h1 <= l2 {
+						return c.True
+					}
+					if l1 > h2 {
+						return c.False
+					}
+				}
+			}
+		}
+	}
 	return c.mk(op, 0, 0, 0, 0, "", a, b)
 }
 
@@ -554,6 +583,22 @@ func (c *Ctx) bin(op Op, a, b *T) *T {
 		if a == b {
 			return a
 		}
+		for _, p := range [][2]*T{{a, b}, {b, a}} {
+			m, x := p[0], p[1]
+			if !m.IsConst() {
+				continue
+			}
+			if lo, hi, ok := c.rangeOf(x, 0); ok && lo >= 0 {
+				k := uint(bits.Len64(uint64(hi))) // x < 2^k
+				low := mask(int(k))
+				if k < 64 && m.Val&low == low { // the mask keeps every bit x can have
+					return x
+				}
+				if k < 64 && m.Val&low == 0 { // the mask keeps none of them
+					return c.Const(w, 0)
+				}
+			}
+		}
 	case OpBOr:
 		if a.IsConst() && a.Val == 0 {
 			return b
@@ -648,6 +693,11 @@ func (c *Ctx) ZExt(a *T, w int) *T {
 	if w < a.W {
 		return c.Extract(a, w-1, 0)
 	}
+	if a.Op == OpExtract && a.P2 == 0 && a.Args[0].W == w {
+		if lo, hi, ok := c.rangeOf(a.Args[0], 0); ok && lo >= 0 && a.W < 64 && hi < int64(1)<<uint(a.W) {
+			return a.Args[0]
+		}
+	}
 	if a.IsConst() {
 		return c.Const(w, a.Val)
 	}
@@ -660,6 +710,27 @@ func (c *Ctx) SExt(a *T, w int) *T {
 	}
 	if w < a.W {
 		return c.Extract(a, w-1, 0)
+	}
+	if a.Op == OpExtract && a.P2 == 0 && a.Args[0].W == w {
+		if lo, hi, ok := c.rangeOf(a.Args[0], 0); ok && fitsSigned(lo, hi, a.W) {
+			return a.Args[0]
+		}
+	}
+	// sext(x +/- y) = sext(x) +/- sext(y) when the narrow operation cannot overflow
+	if (a.Op == OpAdd || a.Op == OpSub) && len(c.Ranges) > 0 {
+		if _, _, ok := c.rangeOf(a, 0); ok { // rangeOf only succeeds for Add/Sub when the result fits
+			if _, _, ok1 := c.rangeOf(a.Args[0], 0); ok1 {
+				if _, _, ok2 := c.rangeOf(a.Args[1], 0); ok2 {
+					if _, direct := c.Ranges[a]; !direct {
+						x, y := c.SExt(a.Args[0], w), c.SExt(a.Args[1], w)
+						if a.Op == OpAdd {
+							return c.Add(x, y)
+						}
+						return c.Sub(x, y)
+					}
+				}
+			}
+		}
 	}
 	if a.IsConst() {
 		return c.Const(w, sext(a.Val, a.W))
@@ -1048,4 +1119,138 @@ func HasFP(t *T, seen map[*T]bool) bool {
 		}
 	}
 	return false
+}
+
+// RangeOf returns signed bounds for t (as a two's complement number of width t.W), if known.
+func (c *Ctx) RangeOf(t *T) (lo, hi int64, ok bool) {
+	return c.rangeOf(t, 0)
+}
+
+func fitsSigned(lo, hi int64, w int) bool {
+	if w >= 64 {
+		return true
+	}
+	return lo >= -(int64(1)<<uint(w-1)) && hi < int64(1)<<uint(w-1)
+}
+
+func (c *Ctx) rangeOf(t *T, depth int) (int64, int64, bool) {
+	if t.W == 0 {
+		return 0, 0, false
+	}
+	if t.IsConst() {
+		v := t.Int()
+		return v, v, true
+	}
+	if r, ok := c.Ranges[t]; ok {
+		return r[0], r[1], true
+	}
+	if depth > 6 {
+		return 0, 0, false
+	}
+	switch t.Op {
+	case OpZExt:
+		a := t.Args[0]
+		if lo, hi, ok := c.rangeOf(a, depth+1); ok && lo >= 0 {
+			return lo, hi, true
+		}
+		if a.W < 63 {
+			return 0, int64(1)<<uint(a.W) - 1, true
+		}
+	case OpSExt:
+		a := t.Args[0]
+		if lo, hi, ok := c.rangeOf(a, depth+1); ok {
+			return lo, hi, true
+		}
+		if a.W < 64 {
+			return -(int64(1) << uint(a.W-1)), int64(1)<<uint(a.W-1) - 1, true
+		}
+	case OpExtract:
+		if t.P2 == 0 {
+			if lo, hi, ok := c.rangeOf(t.Args[0], depth+1); ok && fitsSigned(lo, hi, t.W) {
+				return lo, hi, true
+			}
+		}
+	case OpBAnd:
+		for _, a := range t.Args {
+			if a.IsConst() && a.Int() >= 0 {
+				return 0, a.Int(), true
+			}
+		}
+	case OpBOr, OpBXor:
+		l1, h1, ok1 := c.rangeOf(t.Args[0], depth+1)
+		l2, h2, ok2 := c.rangeOf(t.Args[1], depth+1)
+		if ok1 && ok2 && l1 >= 0 && l2 >= 0 {
+			k := bits.Len64(uint64(h1))
+			if k2 := bits.Len64(uint64(h2)); k2 > k {
+				k = k2
+			}
+			if k < 63 {
+				return 0, int64(1)<<uint(k) - 1, true
+			}
+		}
+	case OpURem:
+		if b := t.Args[1]; b.IsConst() && b.Int() > 0 {
+			return 0, b.Int() - 1, true
+		}
+	case OpSRem:
+		if b := t.Args[1]; b.IsConst() && b.Int() > 0 {
+			if lo, _, ok := c.rangeOf(t.Args[0], depth+1); ok && lo >= 0 {
+				return 0, b.Int() - 1, true
+			}
+			return -(b.Int() - 1), b.Int() - 1, true
+		}
+	case OpAdd, OpSub:
+		l1, h1, ok1 := c.rangeOf(t.Args[0], depth+1)
+		l2, h2, ok2 := c.rangeOf(t.Args[1], depth+1)
+		if ok1 && ok2 {
+			const lim = int64(1) << 61
+			if l1 > -lim && h1 < lim && l2 > -lim && h2 < lim {
+				var lo, hi int64
+				if t.Op == OpAdd {
+					lo, hi = l1+l2, h1+h2
+				} else {
+					lo, hi = l1-h2, h1-l2
+				}
+				if fitsSigned(lo, hi, t.W) {
+					return lo, hi, true
+				}
+			}
+		}
+	case OpIte:
+		l1, h1, ok1 := c.rangeOf(t.Args[1], depth+1)
+		l2, h2, ok2 := c.rangeOf(t.Args[2], depth+1)
+		if ok1 && ok2 {
+			if l2 < l1 {
+				l1 = l2
+			}
+			if h2 > h1 {
+				h1 = h2
+			}
+			return l1, h1, true
+		}
+	}
+	return 0, 0, false
+}
+
+// NoteRange intersects the known range of t with [lo, hi].
+func (c *Ctx) NoteRange(t *T, lo, hi int64) {
+	if c.Ranges == nil || t.IsConst() || t.W == 0 {
+		return
+	}
+	if r, ok := c.Ranges[t]; ok {
+		if r[0] > lo {
+			lo = r[0]
+		}
+		if r[1] < hi {
+			hi = r[1]
+		}
+	} else if l0, h0, ok := c.rangeOf(t, 0); ok {
+		if l0 > lo {
+			lo = l0
+		}
+		if h0 < hi {
+			hi = h0
+		}
+	}
+	c.Ranges[t] = [2]int64{lo, hi}
 }
